@@ -1157,7 +1157,7 @@ class ProgramData:
         Load the currently processing source code
         """
 
-        cls._current_source = src.splitlines(keepends=False)
+        cls._current_source = [line.rstrip("\r") for line in src.split("\n")]  # lark counts lines by \n only
 
     @classmethod
     def _ensure_refmapped(cls, obj: object):
